@@ -33,11 +33,15 @@ from .common import Ctx, to_wire
 
 META = {
     "rule": "cases are drawn from ctx.rng as (function, cloud kind in lattice/line/dupes/blobs+outliers/uniform/gauss, "
-            "N in 1..300 (quick: mostly <= 70, a few up to 300), point dims 1..6 + 0..3 feature channels, ord in 1/2/inf, "
-            "k / n / radius / voxel sizes derived from the cloud's own distance spectrum incl. exact hits on lattice "
-            "clouds, dtype float32/float64, batch shapes where documented); points are shuffled so that outliers sit "
-            "at arbitrary positions; a case is non-trivial when N >= 2 and it is distinct by "
-            "(stream, kind, N-bucket, dims, ord, k/n bucket, flags, dtype)",
+            "N in 1..300 (two thirds <= 24, a tenth 71..300), 1..6 point dims + 0..3 feature channels, ord in 1/2/inf, "
+            "k / n / radius / voxel sizes derived from the cloud's own distance spectrum incl. exact hits of the radius and "
+            "of cell boundaries on fixed-point clouds, dtype float32/float64, batch shapes where documented); points are "
+            "shuffled so that outliers sit at arbitrary positions; hand-made corner clouds first (1..3 points, one voxel, "
+            "nothing retained, #retained <= k); quick: 140 knn + 170 nbr + 170 voxel + 170 knn_filter + 70 random_filter + "
+            "150 camera + 70 homo cases (+20% later calls with the same shapes), thorough: about 10x that; every case goes to "
+            "the exact integer oracle, all but the largest clouds beyond a per-stream budget also to the 192-bit Lean model; "
+            "a case is non-trivial when N >= 2 and distinct by (stream, kind, N-bucket, dims, ord, k/n bucket, flags, dtype, "
+            "batch shape)",
     "trusted": ["torch.topk / torch.unique / torch.argsort / randperm / randint (external kernels: contract parameters "
                 "of the model; the driver stand-ins re-check the contract on every call)",
                 "numpy int64 / Python int arithmetic of the exact brute-force oracle"],
@@ -50,12 +54,14 @@ META = {
         "whatever the dtype of the cloud, so the grid of a float64 cloud is the float32-rounded one",
         "knn: dim = -1 (the default) only",
         "camera: pinhole intrinsics [[fx,0,cx],[0,fy,cy],[0,0,1]] with fx, fy != 0 for the inverse clauses; "
-        "|depth| >= finfo.tiny (homo2cart clamps the divisor)",
+        "|depth| >= finfo.tiny (homo2cart clamps the divisor); batch shapes of (points/pixels, depth, intrinsics, "
+        "extrinsics) are broadcastable",
     ],
     "partial": [
-        "IEEE rounding is not modelled: numerical outputs are compared at 64 eps (+2 eps per summand for means)",
-        "equivariance of random_filter / voxel_filter(random=True) is in distribution only; the theorem is stated "
-        "for a given draw (the draw is an input of the model)",
+        "IEEE rounding is not modelled: numerical outputs are compared at 64 eps relative (+2 eps per summand for "
+        "means, condition-aware for projections); theorems are over the reals",
+        "equivariance of random_filter / voxel_filter(random=True) in distribution rides on the RNG contract; the "
+        "theorems are stated for every draw and every argsort kernel (random_filter_perm, voxel_random_perm)",
     ],
 }
 
@@ -180,6 +186,23 @@ def choose_radius(r: random.Random, K, s, ord_, dtype, exact):
 
 # ============================================================================ knn
 
+class KRow(list):
+    """one row of exact keys with its rank orders cached"""
+    __slots__ = ("_ord",)
+
+    def order(self, largest: bool):
+        if not hasattr(self, "_ord"):
+            self._ord = {}
+        if largest not in self._ord:
+            # Python's sort is stable: ties are ordered by index
+            self._ord[largest] = sorted(range(len(self)), key=(lambda j: -self[j]) if largest else self.__getitem__)
+        return self._ord[largest]
+
+
+def key_rows(K):
+    return [KRow(int(v) for v in row) for row in K.tolist()]
+
+
 def topk_verdict(drow, Krow, sel, k, largest, is_sorted, tol, exact):
     """is `sel` (indices) a valid top-k of the exact key row up to the tolerance?  returns (ok, why)"""
     n = len(drow)
@@ -189,9 +212,7 @@ def topk_verdict(drow, Krow, sel, k, largest, is_sorted, tol, exact):
         return False, "repeated index"
     if any((j < 0 or j >= n) for j in sel):
         return False, "index out of range"
-    order = sorted(range(n), key=lambda j: (Krow[j], j), reverse=False)
-    if largest:
-        order = sorted(range(n), key=lambda j: (-Krow[j], j))
+    order = Krow.order(largest)
     sel_eff = list(sel) if is_sorted else sorted(sel, key=lambda j: (Krow[j] if not largest else -Krow[j]))
     for t in range(k):
         a, b = drow[sel_eff[t]], drow[order[t]]
@@ -205,9 +226,7 @@ def topk_verdict(drow, Krow, sel, k, largest, is_sorted, tol, exact):
 
 def row_unambiguous(Krow, drow, k, largest, tol, exact):
     """True when the top-k index list is uniquely determined (no (near-)tie among ranks 0..k)"""
-    ks = sorted(range(len(drow)), key=lambda j: (Krow[j], j), reverse=False)
-    if largest:
-        ks = sorted(range(len(drow)), key=lambda j: (-Krow[j], j))
+    ks = Krow.order(largest)
     for t in range(min(k, len(ks) - 1)):
         a, b = drow[ks[t]], drow[ks[t + 1]]
         if exact:
@@ -251,15 +270,18 @@ def check_knn(ctx: Ctx, case, jobs: Jobs | None = None) -> bool:
         K = U.pair_keys(Zr, Zn, o)
         d = U.keys_to_dist(K, s, o)
         exact = U.float_exact(Za, s, case["dtype"], o)
+        rows = key_rows(K)
+        d = d.tolist()
+        idx_l, vals_l = idx2[b].tolist(), vals2[b].tolist()
         for i in range(case["N"]):
-            sel = idx2[b, i].tolist()
-            Krow = [int(v) for v in K[i].tolist()]
+            sel = idx_l[i]
+            Krow = rows[i]
             good, why = topk_verdict(d[i], Krow, sel, k, largest, is_sorted, tol, exact)
             if not good:
                 ctx.fail(case, f"knn-neighbours: batch {b} reference {i}: {why} (ord={o}, k={k}, largest={largest})")
                 return False
             for t, j in enumerate(sel):
-                v = float(vals2[b, i, t])
+                v = vals_l[i][t]
                 if abs(v - d[i][j]) > tol * max(d[i][j], abs(v)) + 0.0:
                     ctx.fail(case, f"knn-values: batch {b} reference {i} rank {t}: value {v!r} but the distance to "
                                    f"index {j} is {d[i][j]!r} (ord={o})")
@@ -268,7 +290,7 @@ def check_knn(ctx: Ctx, case, jobs: Jobs | None = None) -> bool:
         if jobs is not None and b < case.get("model_items", 1):
             line = (f"c18.knn {U.ord_tok(o)} {1 if largest else 0} {k} {case['pdim']} {case['N']} {case['N2']} "
                     + cloud_tokens(ref_items[b]) + " " + cloud_tokens(nbr_items[b]))
-            unamb = [row_unambiguous([int(v) for v in K[i].tolist()], d[i], k, largest, tol, exact) for i in range(case["N"])]
+            unamb = [row_unambiguous(rows[i], d[i], k, largest, tol, exact) for i in range(case["N"])]
 
             def cb(st, toks, b=b, vals_b=vals2[b].clone(), idx_b=idx2[b].clone(), unamb=unamb):
                 if st != "ok":
@@ -307,13 +329,15 @@ def check_knn(ctx: Ctx, case, jobs: Jobs | None = None) -> bool:
             K = U.pair_keys(Za[: case["N"]], Za[case["N"]:], o)
             d = U.keys_to_dist(K, s, o)
             exact = U.float_exact(Za, s, case["dtype"], o)
+            rows = key_rows(K)
+            d = d.tolist()
             for ii, i in enumerate(sr):
                 if not is_sorted:
                     continue
                 if not torch.allclose(v2[b, ii], vals2[b, i], rtol=tol, atol=0):
                     ctx.fail(case, f"knn-equivariance: values of reference {i} change under a permutation of the clouds")
                     return False
-                if row_unambiguous([int(v) for v in K[i].tolist()], d[i], k, largest, tol, exact):
+                if row_unambiguous(rows[i], d[i], k, largest, tol, exact):
                     if sn_t[i2[b, ii]].tolist() != idx2[b, i].tolist():
                         ctx.fail(case, f"knn-equivariance: neighbours of reference {i} change under a permutation of nbr: "
                                        f"{sn_t[i2[b, ii]].tolist()} vs {idx2[b, i].tolist()}")
@@ -574,7 +598,10 @@ def check_voxel(ctx: Ctx, case, jobs: Jobs | None = None) -> bool:
         ctx.fail(case, f"voxel-count: random=True returned {tuple(out.shape)}, the cloud occupies {M} voxels (D={D})")
         return False
     members = [set(groups[kk]) for kk in ukeys]
-    rowsets = [{i for i in range(N) if torch.equal(X[i], out[j])} for j in range(M)]
+    where = {}
+    for i, row in enumerate(X.tolist()):
+        where.setdefault(tuple(row), set()).add(i)
+    rowsets = [where.get(tuple(row), set()) for row in out.tolist()]
     if any(not rs for rs in rowsets):
         j = [bool(rs) for rs in rowsets].index(False)
         ctx.fail(case, f"voxel-member: row {j} {out[j].tolist()} is not an input point (rng {mode})")
@@ -656,8 +683,9 @@ def check_knnf(ctx: Ctx, case, jobs: Jobs | None = None) -> bool:
     for b, X64 in enumerate(items):
         Z, s = U.exact_ints(X64[:, :pd])
         K = U.pair_keys(Z, Z, o)
-        d = U.keys_to_dist(K, s, o)
+        d = U.keys_to_dist(K, s, o).tolist()
         exact = U.float_exact(Z, s, case["dtype"], o)
+        rows = key_rows(K)
         if radius is None:
             keep = list(range(N))
         else:
@@ -673,11 +701,11 @@ def check_knnf(ctx: Ctx, case, jobs: Jobs | None = None) -> bool:
             return False
         scale_all = X64.abs().amax(0)
         for r_, i in enumerate(keep):
-            Krow = [int(v) for v in K[i].tolist()]
+            Krow = rows[i]
             if not row_unambiguous(Krow, d[i], k + 1, False, tol, exact):
                 ctx.count("knnf.tie-rows-skipped")
                 continue
-            nb = sorted(range(N), key=lambda j: (Krow[j], j))[: k + 1]
+            nb = Krow.order(False)[: k + 1]
             ctx.count("knnf.rows-checked")
             want = X64[nb].mean(0)
             tolm = (64 + 2 * (k + 1)) * eps * X64[nb].abs().amax(0)
@@ -689,7 +717,7 @@ def check_knnf(ctx: Ctx, case, jobs: Jobs | None = None) -> bool:
         if jobs is not None and b < case.get("model_items", 1):
             line = f"c18.knnf {U.ord_tok(o)} {pd} {D} {N} {k} {0 if radius is None else 1} {to_wire(radius or 0.0)} " \
                    + cloud_tokens(X64)
-            unamb = [row_unambiguous([int(v) for v in K[i].tolist()], d[i], k + 1, False, tol, exact) for i in keep]
+            unamb = [row_unambiguous(rows[i], d[i], k + 1, False, tol, exact) for i in keep]
 
             def cb(st, toks, got=got.clone(), keep=keep, unamb=unamb, X64=X64):
                 if st != "ok":
@@ -720,12 +748,13 @@ def check_knnf(ctx: Ctx, case, jobs: Jobs | None = None) -> bool:
             X64 = items[0]
             Z, s = U.exact_ints(X64[:, :pd])
             K = U.pair_keys(Z, Z, o)
-            d = U.keys_to_dist(K, s, o)
+            d = U.keys_to_dist(K, s, o).tolist()
             exact = U.float_exact(Z, s, case["dtype"], o)
+            rows = key_rows(K)
             o2 = o2.reshape((-1,) + tuple(o2.shape[-2:]))[0]
             tolm = (64 + 2 * (k + 1)) * eps * X64.abs().amax(0)
             for ii, i in enumerate(sg):
-                if row_unambiguous([int(v) for v in K[i].tolist()], d[i], k + 1, False, tol, exact):
+                if row_unambiguous(rows[i], d[i], k + 1, False, tol, exact):
                     if bool(((o2[ii] - outs[0][i]).abs() > tolm).any()):
                         ctx.fail(case, f"knnf-equivariance: the row of point {i} changes under a permutation of the cloud")
                         return False
@@ -766,7 +795,10 @@ def check_randf(ctx: Ctx, case, jobs: Jobs | None = None) -> bool:
     idx_all = []
     for b in range(outs.shape[0]):
         # which input rows can each output row be?  then a matching with distinct indices must exist
-        cands = [[i for i in range(N) if torch.equal(xs[b, i], outs[b, j])] for j in range(num)]
+        where = {}
+        for i, row in enumerate(xs[b].tolist()):
+            where.setdefault(tuple(row), []).append(i)
+        cands = [where.get(tuple(row), []) for row in outs[b].tolist()]
         if any(not c for c in cands):
             j = [bool(c) for c in cands].index(False)
             ctx.fail(case, f"randf-member: batch {b} output row {j} {outs[b, j].tolist()} is not an input point")
@@ -1322,10 +1354,10 @@ def run(ctx: Ctx):
     torch.set_num_threads(2)
     jobs = Jobs()
     hiN = 300
-    plan = [("knn", gen_knn_case, ctx.pick(140, 2400)), ("nbr", gen_nbr_case, ctx.pick(170, 2800)),
-            ("voxel", gen_voxel_case, ctx.pick(170, 2800)), ("knnf", gen_knnf_case, ctx.pick(170, 2800)),
-            ("randf", gen_randf_case, ctx.pick(70, 1000))]
-    big_budget = {"knn": ctx.pick(2, 30), "nbr": ctx.pick(2, 30), "voxel": ctx.pick(3, 40), "knnf": ctx.pick(2, 30), "randf": 1000}
+    plan = [("knn", gen_knn_case, ctx.pick(140, 1400)), ("nbr", gen_nbr_case, ctx.pick(170, 1600)),
+            ("voxel", gen_voxel_case, ctx.pick(170, 1600)), ("knnf", gen_knnf_case, ctx.pick(170, 1600)),
+            ("randf", gen_randf_case, ctx.pick(70, 600))]
+    big_budget = {"knn": ctx.pick(1, 20), "nbr": ctx.pick(1, 20), "voxel": ctx.pick(2, 30), "knnf": ctx.pick(1, 20), "randf": 1000}
     # hand-made corner cases first (docstring clouds with the outliers moved, 1-point clouds, single voxel, ...)
     for c in corner_cases():
         run_case(ctx, c, jobs)
@@ -1340,9 +1372,9 @@ def run(ctx: Ctx):
                     run_case(ctx, c, None)
                     continue
             run_case(ctx, c, jobs)
-    for _ in range(ctx.pick(150, 2400)):
+    for _ in range(ctx.pick(150, 1500)):
         run_case(ctx, gen_camera_case(rng), jobs)
-    for _ in range(ctx.pick(70, 1000)):
+    for _ in range(ctx.pick(70, 600)):
         run_case(ctx, gen_homo_case(rng), jobs)
     jobs.flush(ctx)
 
